@@ -236,6 +236,18 @@ func (m *mctx) numberMutants(s, v *jsonv.Value, steps []int, path string) {
 			m.emit(steps, path, kw+"/+0.5", v, add(b, half))
 			m.emit(steps, path, kw+"/-0.125", v, sub(b, big.NewRat(1, 8)))
 			m.emit(steps, path, kw+"/+0.125", v, add(b, big.NewRat(1, 8)))
+			// a hair off the bound (exact in binary64): comparisons must be exact, not tolerant
+			abs := new(big.Rat).Abs(b)
+			if abs.Cmp(big.NewRat(1<<31, 1)) < 0 {
+				eps := big.NewRat(1, 1<<20)
+				m.emit(steps, path, kw+"/-2^-20", v, sub(b, eps))
+				m.emit(steps, path, kw+"/+2^-20", v, add(b, eps))
+			}
+			if abs.Cmp(big.NewRat(1<<11, 1)) < 0 {
+				eps := big.NewRat(1, 1<<40)
+				m.emit(steps, path, kw+"/-2^-40", v, sub(b, eps))
+				m.emit(steps, path, kw+"/+2^-40", v, add(b, eps))
+			}
 		}
 		if step != nil {
 			// the multiples around the bound isolate it from multipleOf
